@@ -190,7 +190,7 @@ func (h *VHist) applyWriteT(op VOp) (int64, error) {
 			mp[n] = ms
 			first = es[0]
 		}
-		if err := h.W.Store.ExecuteTransaction(t); err != nil {
+		if err := h.storeVia(op.Via).ExecuteTransaction(t); err != nil {
 			return 0, err
 		}
 		_ = h.M.Txn(mp)
